@@ -34,6 +34,7 @@ import XdslModel.PDL
 import XdslModel.RiscVValidate
 import XdslModel.IRWF
 import XdslModel.Skeleton
+import XdslModel.LowerAffine
 /-!
 Model registry for the driver: `MODEL <name>` selects a `(state, lineStep)` pair.
 A continuation-passing encoding is used because the state types differ.
@@ -83,6 +84,7 @@ def run? (name : String) : Option Runner :=
   | "disjoint_set" => some fun k => k DisjointSet.glineStep {}
   | "register_stack" => some fun k =>
       k RegAlloc.stackLineStep ({ z := false, allowInf := false, infBase := 1000 }, [{}])
+  | "lower_affine" => some fun k => k LowerAffine.lineStep ()
   | _ => none
 
 end Xdsl.Registry
